@@ -116,7 +116,7 @@ CHECKS = {
         "technique": "property-based testing inside testing/synctest bubbles: enumerated stage x terminator x cut position, release and return observed at bubble quiescence (no timeouts)",
         "level_text": ("Exploration. Each stage of the catalogue (and ten time-driven / hand-off / context stages) is put between a never-ending source and each early terminator; "
                        "once the downstream side has terminated and the bubble is quiescent, the source's teardown must have run exactly once, nothing may remain subscribed (signal "
-                       "included), the Subscribe call must have returned, and - after the harness has released everything it controls - no goroutine may be left blocked in the bubble. The operators with SEVERAL sources (merge, combine-latest, zip, race, until, sample/buffer/window-when and sequence-equal families, every arity incl. the hand-written ones) over never-ending hot sources, one of which may deliver a first value from inside its subscription: once a source has failed, a Take(n) below is satisfied or the subscriber has unsubscribed, every subscribed source is released."),
+                       "included), the Subscribe call must have returned, and - after the harness has released everything it controls - no goroutine may be left blocked in the bubble. The operators with SEVERAL sources (merge, combine-latest, zip, race, until, sample/buffer/window-when and sequence-equal families, every arity incl. the hand-written ones) over never-ending hot sources, one of which may deliver a first value from inside its subscription: once a source has failed, a Take(n) below is satisfied or the subscriber has unsubscribed, every subscribed source is released. Metamorphic over the catalogue: whether the first value of a never-ending source arrives from inside its subscription or right after it returned, the source is released alike once a Take(1) below is satisfied or the subscriber unsubscribes (rows that wait inside their subscribe function are the listed finding and are excluded by construction, counted)."),
         "level_note": "One design-level listed finding (operators that wait inside Subscribe); a sample of those cases keeps running to print the KNOWN-FINDING, the rest is excluded by construction and counted.",
     },
     "C13": {
